@@ -56,41 +56,116 @@ def _work(job):
     return idx, r
 
 
+def _chains(obligations, max_len=16):
+    """Consecutive obligations of one path where each one assumes the previous goals form a chain:
+    pc[k+1] == pc[k] + [goal[k]].  A chain is first tried as ONE query (pc[0] and not(all goals))."""
+    chains, cur = [], []
+    for ob in obligations:
+        if ob.result is not None:
+            continue
+        if cur and len(cur) < max_len and len(ob.pc) == len(cur[-1].pc) + 1 and ob.pc[-1] is cur[-1].goal \
+                or (cur and len(cur) < max_len and len(ob.pc) == len(cur[-1].pc) + 1 and ob.pc[-1].s == cur[-1].goal.s
+                    and (len(ob.pc) < 2 or ob.pc[-2] is cur[-1].pc[-1] if cur[-1].pc else True)):
+            cur.append(ob)
+        else:
+            if cur:
+                chains.append(cur)
+            cur = [ob]
+    if cur:
+        chains.append(cur)
+    return chains
+
+
+_G = {"results": None, "budget": 60}
+_RF_CACHE = {}
+
+
+def _refine_text(fi, used):
+    fr = _G["results"][fi]
+    if fi not in _RF_CACHE:
+        _RF_CACHE[fi] = [(t.s, set(_TOKEN.findall(t.s))) for t in getattr(fr, "refine_facts", [])]
+    out = []
+    funs = fr.decls.funs
+    for txt, toks in _RF_CACHE[fi]:
+        if all((tok not in funs) or (tok in used) for tok in toks):
+            out.append(f"(assert {txt})")
+    return "\n".join(out)
+
+
+def _work_chain(job):
+    """job: (function index, [obligation indices within fr.obligations], [global indices]) - texts are built
+    here, in the worker (the function results are inherited through fork)"""
+    from .smt import And
+    fi, obidx, gidx = job
+    fr = _G["results"][fi]
+    budget = _G["budget"]
+    obs = list(getattr(fr, "observe", []) or [])[:120]
+    want = [f"obs!{i}" for i in range(len(obs))]
+    chain = [fr.obligations[i] for i in obidx]
+    if len(chain) > 1:
+        comb = Obligation(chain[0].func, "chain", "chain", chain[0].pc, And(*[ob.goal for ob in chain]))
+        r = solve(smt_text(fr.decls, comb), "unsat", budget)
+        if r["result"] == "unsat":
+            out = []
+            for g in gidx:
+                rr = dict(r)
+                rr["seconds"] = r["seconds"] / len(gidx)
+                rr["grouped"] = len(gidx)
+                out.append((g, rr))
+            return out
+    out = []
+    for ob, g in zip(chain, gidx):
+        text = smt_text(fr.decls, ob, observe=obs)
+        r = solve(text, "unsat", budget, want_model_for=want)
+        if r["result"] == "sat":
+            rf = _refine_text(fi, set(_TOKEN.findall(text)))
+            if rf:
+                r2 = solve(text + "\n" + rf, "unsat", budget, want_model_for=want)
+                if r2["result"] in ("sat", "unsat"):
+                    r2["seconds"] += r["seconds"]
+                    r2["refined"] = True
+                    if r2["result"] == "unsat":
+                        r2["solver"] = str(r2["solver"]) + "+layout"
+                    r = r2
+        out.append((g, r))
+    return out
+
+
+def _work_cover(job):
+    fi, ci, g = job
+    fr = _G["results"][fi]
+    ob = fr.covers[ci]
+    r = solve(smt_text(fr.decls, ob, negate=False), "sat", min(_G["budget"], 20))
+    return g, r
+
+
 def discharge(func_results, budget=60, jobs=None, covers=True, model_terms=None, progress=None):
     """Solve every obligation (expect unsat) and cover check (expect sat) of the given functions."""
     jobs = jobs or min(16, os.cpu_count() or 4)
-    work = []
-    index = []
-    for fr in func_results:
+    _G["results"] = func_results
+    _G["budget"] = budget
+    _RF_CACHE.clear()
+    chain_jobs, cover_jobs, index = [], [], []
+    for fi, fr in enumerate(func_results):
         obs = list(getattr(fr, "observe", []) or [])[:120]
-        for ob in fr.obligations:
-            if ob.result is not None:
-                continue
-            text = smt_text(fr.decls, ob, observe=obs)
-            want = [f"obs!{i}" for i in range(len(obs))]
-            ob.meta["observe_paths"] = [(p, kn) for p, t, kn in obs]
-            used = set(_TOKEN.findall(text))
-            rf = "\n".join(f"(assert {t.s})" for t in getattr(fr, "refine_facts", [])
-                           if set(_TOKEN.findall(t.s)) & used and all(
-                               tok in used or tok in fr.decls.funs and False or not tok.endswith("!0") or True
-                               for tok in ()))
-            rf_ok = []
-            for t in getattr(fr, "refine_facts", []):
-                toks = set(_TOKEN.findall(t.s))
-                if all((tok not in fr.decls.funs) or (tok in used) for tok in toks):
-                    rf_ok.append(f"(assert {t.s})")
-            work.append((len(index), text, "unsat", budget, want, "\n".join(rf_ok)))
-            index.append(ob)
+        pos = {id(ob): i for i, ob in enumerate(fr.obligations)}
+        for chain in _chains(fr.obligations):
+            gidx = []
+            for ob in chain:
+                ob.meta["observe_paths"] = [(p, kn) for p, t, kn in obs]
+                gidx.append(len(index))
+                index.append(ob)
+            chain_jobs.append((fi, [pos[id(ob)] for ob in chain], gidx))
         if covers:
-            for ob in fr.covers:
-                text = smt_text(fr.decls, ob, negate=False)
-                work.append((len(index), text, "sat", min(budget, 20), None))
+            for ci, ob in enumerate(fr.covers):
+                cover_jobs.append((fi, ci, len(index)))
                 index.append(ob)
     t0 = time.time()
-    if work:
-        with mp.Pool(jobs) as pool:
-            for idx, r in pool.imap_unordered(_work, work, chunksize=1):
+    if chain_jobs or cover_jobs:
+        with mp.Pool(jobs) as pool:          # fork: workers inherit _G
+            for res in pool.imap_unordered(_work_chain, chain_jobs, chunksize=1):
+                for idx, r in res:
+                    index[idx].result = r
+            for idx, r in pool.imap_unordered(_work_cover, cover_jobs, chunksize=4):
                 index[idx].result = r
-                if progress:
-                    progress(index[idx])
     return time.time() - t0
